@@ -3,12 +3,17 @@ from checks.generic import standard
 def run(ctx):
     return standard(ctx,
         props=[("Props.C04", ["c04_accept_sound", "c04_storage_both_paths", "c04_cache_arm_without_subject_refuted", "c04_storage_data_type_unbound", "c04_matrix", "c04_single_claim", "c04_single_claim_resigned",
+                              "c04_token_one_client", "c04_token_header_silences_body", "c04_token_channel", "c04_code_of_other_client_refused", "c04_body_subject_reading_refuted",
                               "c04_no_side_effect", "c04_update_keeps_expiry", "c04_cli_send_no_extension",
                               "c04_old_storage_exp_refuted"])],
         harness=("TestVerif_C04", ["kmd/common.go", "kmd/creds.go", "kmd/consts.go", "kmd/tokens.go", "kmd/c04.go"]),
         obl=("Obl_C04.v", ["c04_struct_tags", "c04_produced_claims", "c04_kind_strings", "c04_kinds_distinct", "c04_lifetimes"]),
         cases=("CasesC04.v", [("c04_mismatches", "accept/reject, named user and re-issued artefacts of every consumer = model (matrix, mutations, header substitutions, storage column)"),
-                              ("c04_corrupt_mismatches", "byte-corrupted artefacts: verdict = model on the base token with the harness's tampered flag")], "CasesC04.idx"),
+                              ("c04_corrupt_mismatches", "byte-corrupted artefacts: verdict = model on the base token with the harness's tampered flag"),
+                              ("c04_channel_mismatches", "token endpoint, two identity channels (code x header id/secret x body client_id/client_secret x verifier, enumerated by the model): released/refused = model", "CasesC04ch.idx"),
+                              ("c04_channel_release_mismatches", "token endpoint, two identity channels: claims of every released ID / access token = model", "CasesC04ch.idx")], "CasesC04.idx"),
+        model_oracles=[("c04_channel_violating", "C04:model-oracle:token-released-unjustified", "the token endpoint released tokens on a request for which the model, which provably releases only to the one authenticated client of a genuine, current code (c04_token_one_client), refuses", "CasesC04ch.idx"),
+                       ("c04_channel_release_violating", "C04:model-oracle:token-audience-or-subject", "released ID token whose audience, or a code whose subject, is not the one client the request authenticated as (c04_token_one_client)", "CasesC04ch.idx")],
         trusted=["symbolic cryptography: a token verifies iff its signer is one of KeymasterPublicKeys, its header algorithm is one derived from those keys and its bytes are unaltered (EUF-CMA of RS256/ES*/EdDSA and go-jose's implementation are assumed; exercised, not proved, by foreign-key / none / HS256-with-public-key / relabelled / corrupted tokens)",
                  "go-jose JSON decoding in front of the model: the harness decodes the payload of every token it sends into the model's claim list; AES-GCM/RSA-OAEP sealing of the PKCE challenge is symbolic (VSealed)",
                  "clock: the model is evaluated at the two readings taken around each call and must agree for one of them (the generators stay >= 60 s away from every expiry boundary)"],
